@@ -270,22 +270,27 @@ Classify(f) ==
 \* all readings of a literal (its date tokens) by the documented patterns
 Readings(toks) == UNION {{Classify(f) : f \in FullMatches(Patterns[p], toks)} : p \in DOMAIN Patterns}
 
-\* summary used by the judge
-LitSummary(toks) ==
-  LET rs == Readings(toks) IN
+\* summary used by the judge.  (Operator arguments are evaluated once; LET definitions at every use.)
+SummaryOf(rs) ==
   [silent |-> \E r \in rs : r.c = "silent",
    valid |-> {r \in rs : r.c \in {"fixed", "zoned"}},
    ninvalid |-> Cardinality({r \in rs : r.c = "invalid"}),
    nmatch |-> Cardinality(rs)]
+LitSummary(toks) == SummaryOf(Readings(toks))
 
-\* the literal as a value inside a larger expression: "date" (exactly one strict fixed instant), "err" (matches no
-\* pattern, or only as something that denotes nothing), "unknown" otherwise
-LitValue(toks) ==
-  LET s == LitSummary(toks) IN
+\* the literal as a value inside a larger expression: "date" (exactly one reading: a strict fixed instant, or a local
+\* time in a named zone whose UTC offset zoff = <<seconds>> was observed), "err" (matches no pattern, or only as
+\* something that denotes nothing), "unknown" otherwise
+OffsetNanos(off) == ZMul(ZFromInt(off), ZBillion)
+ValueOfReading(r, zoff) ==
+  IF r.c = "fixed" /\ ~r.soft /\ r.win = 0 THEN [t |-> "date", inst |-> r.inst]
+  ELSE IF r.c = "zoned" /\ r.win = 0 /\ zoff # <<>> /\ OffsetValid(zoff[1]) THEN [t |-> "date", inst |-> ZSub(r.inst, OffsetNanos(zoff[1]))]
+  ELSE [t |-> "unknown"]
+ValueOfSummary(s, zoff) ==
   IF s.silent THEN [t |-> "unknown"]
   ELSE IF s.valid = {} THEN [t |-> "err", c |-> "generic"]
-  ELSE IF s.ninvalid = 0 /\ Cardinality(s.valid) = 1
-          /\ (\A r \in s.valid : r.c = "fixed" /\ ~r.soft /\ r.win = 0)
-       THEN [t |-> "date", inst |-> (CHOOSE r \in s.valid : TRUE).inst]
+  ELSE IF s.ninvalid = 0 /\ Cardinality(s.valid) = 1 THEN ValueOfReading(CHOOSE r \in s.valid : TRUE, zoff)
   ELSE [t |-> "unknown"]
+LitValue(toks) == ValueOfSummary(LitSummary(toks), <<>>)
+LitIsZoned(s) == ~s.silent /\ s.ninvalid = 0 /\ Cardinality(s.valid) = 1 /\ \A r \in s.valid : r.c = "zoned"
 =============================================================================
